@@ -64,7 +64,7 @@ func cmdExplore(args []string) {
 		fmt.Fprintln(os.Stderr, err)
 		os.Exit(2)
 	}
-	ov, _, err := overlayFrom(*repo, append(strings.Split(*hdirs, ","), genDir)...)
+	ov, _, err := overlayFrom(*repo, "", append(strings.Split(*hdirs, ","), genDir)...)
 	if err != nil {
 		fmt.Fprintln(os.Stderr, err)
 		os.Exit(2)
